@@ -52,6 +52,15 @@ def add(ro, m):
     return res, classify_status(err), moswarn_names(w), err
 
 
+def shares(a, b):
+    """some Element object is reachable from both trees (spec/MosAlias.tla: NoSharedNodes, on the real heap)"""
+    try:
+        ids = {id(e) for e in a.xml.iter()}
+        return any(id(e) in ids for e in b.xml.iter())
+    except Exception:  # noqa: BLE001
+        return False
+
+
 def completed_of(ro):
     """what the accessor ro.completed reports (False when it raises: never equal to a completed document)"""
     try:
@@ -98,7 +107,7 @@ def run_case(case_id, pre_abs, msg_abs, seed, keep_xml=False):
     if not project.bind(msg_abs, msg_proj, table):
         raise Machinery("gamma/alpha round trip failed for message of case %s: %r vs %r" % (case_id, msg_abs, msg_proj))
     ev = {"id": case_id, "obj": 0, "k": "merge", "pre": pre_abs, "msg": msg_abs,
-          "intact": True, "cls": "", "completed_eq": True, "acc_eq": True, "expose_intact": True}
+          "intact": True, "cls": "", "completed_eq": True, "acc_eq": True, "expose_intact": True, "unshared": True}
     try:
         m = parse_msg(msg_xml)
         cls_seen = type(m).__name__
@@ -108,13 +117,15 @@ def run_case(case_id, pre_abs, msg_abs, seed, keep_xml=False):
             ev["xml"] = {"ro": ro_xml, "msg": msg_xml}
         return ev
     before = str(ro)
+    msg_text0 = str(m)
     res, status, warns, err = add(ro, m)
     # (a message classified as another class than its shape says is C08's business: the step is judged as it went)
     target = res if (status == "ok" and isinstance(res, RunningOrder)) else ro
     if status == "ok" and not isinstance(res, RunningOrder):
         status = "crash:BadReturn"
     post = project.rename(project.project_ro(target), table)
-    ev.update(post=post, status=status, warns=warns, ser_eq=(str(ro) == before), completed_acc=completed_of(target))
+    ev.update(post=post, status=status, warns=warns, ser_eq=(str(ro) == before), completed_acc=completed_of(target),
+              intact=(str(m) == msg_text0), unshared=not shares(target, m))
     if keep_xml:
         ev["xml"] = {"ro": ro_xml, "msg": msg_xml, "after": str(target),
                      "error": repr(err) if err is not None else None}
